@@ -28,12 +28,23 @@ Lemma compile_ok2 E b n b' r :
     ext1 E E' /\ len E' <= len E + 1 /\ tgt_ok E' a /\ a <> NONE_ADDRESS /\
     elang E' a = lang_node (elang E) n /\
     (forall x, In x (n_trans n) -> t_addr x <= a) /\
-    (forall a0, In a0 (addrs E') -> In a0 (addrs E) \/ a0 = a).
+    (forall a0, In a0 (addrs E') -> In a0 (addrs E) \/ a0 = a) /\
+    (E' = E \/ exists s, E' = (a, s) :: E /\ bn_of s = n) /\
+    (bbytes b -> bbytes b').
 Proof.
   intros Hm Hn Hsz Hc.
+  pose proof (compile_bbytes ty E b n b' r Hm Hn Hsz Hc) as Hbb.
   destruct (compile_ok Hcodec Htotal ty E b n b' r Hm Hn Hsz Hc)
     as (E' & a & Hr & Hm' & F1 & F2 & F3 & Hcase).
+  assert (Hstr : E' = E \/ exists s, E' = (a, s) :: E /\ bn_of s = n).
+  { destruct Hcase as [(-> & _)|(s & -> & Hs)]; [left; reflexivity|right; exists s; auto]. }
   exists E', a. split; [exact Hr|]. split; [exact Hm'|]. do 3 (split; [assumption|]).
+  cut (ext1 E E' /\ len E' <= len E + 1 /\ tgt_ok E' a /\ a <> NONE_ADDRESS /\
+       elang E' a = lang_node (elang E) n /\
+       (forall x, In x (n_trans n) -> t_addr x <= a) /\
+       (forall a0, In a0 (addrs E') -> In a0 (addrs E) \/ a0 = a)).
+  { intros X. decompose [and] X. splits; auto. }
+  clear Hstr Hbb.
   destruct Hm as (HE & _). destruct Hm' as (HE' & _).
   destruct Hcase as [(-> & [(-> & Hs)|(s & Hin & Hs)])|(s & -> & Hs)].
   - split; [left; reflexivity|]. split; [lia|]. split; [left; reflexivity|].
@@ -68,20 +79,45 @@ Proof.
   unfold trans_ok. splits; auto. cbn in HW2. lia.
 Qed.
 
+Lemma shape_two lo p t k : shape (lo ++ [p; t]) k ->
+  lasts lo (firstn (length lo) k) /\ exists c o, u_last p = Some (c, o) /\ u_last t = None.
+Proof.
+  intros Hs. destruct (shape_app_inv lo [p; t] k Hs) as (Hlo & Hpt); [discriminate|]. split; [exact Hlo|].
+  destruct (skipn (length lo) k) as [|c [|c2 k2]]; cbn [shape] in Hpt.
+  - destruct Hpt as (_ & X); discriminate.
+  - destruct Hpt as ((o & Hp) & Ht & _). eauto.
+  - destruct Hpt as (_ & _ & []).
+Qed.
+
+Lemma Cpost_top_Fro cl lo p t k q v : shape (lo ++ [p; t]) k -> (q <= length lo)%nat ->
+  Cpost cl (lo ++ [p; t]) [] q v -> Fro cl (u_node t).
+Proof.
+  intros Hs Hq HC. destruct (shape_two _ _ _ _ Hs) as (Hlo & c & o & Hp & Ht).
+  apply (Cpost_app _ lo _ _ _ _ _ Hlo Hq) in HC. destruct HC as (_ & HC).
+  cbn [Cpost] in HC. rewrite Hp in HC. tauto.
+Qed.
+
+Lemma trimmed_freeze p c o a : u_last p = Some (c, o) -> trimmed (freeze p a).
+Proof. intros H. right. unfold freeze. rewrite H. cbn [n_trans]. destruct (n_trans (u_node p)); discriminate. Qed.
+
 Lemma cfr_ok : forall rest u b addr E k L keep b' r,
   minv ty E b ->
   sinv E (rev rest ++ [vtop u addr]) k L ->
   (addr = None -> u_last u = None) ->
   NODE_MAX * (len E + len (u :: rest)) + 100 < U64 ->
+  strim E -> bbytes b -> ((keep < length rest)%nat -> trimmed (u_node (vtop u addr))) ->
   compile_from_rev b (u :: rest) keep addr = (b', r) ->
   exists E' rst, r = Ok rst /\ minv ty E' b' /\ b_last b' = b_last b /\ b_len b' = b_len b /\
     len E' + len rst <= len E + len (u :: rest) /\
     sinv E' (rev rst) (firstn keep k) L /\
     (((length rest <= keep)%nat /\ rst = vtop u addr :: rest /\ E' = E) \/
      ((keep < length rest)%nat /\ exists lo p hi a, rev rest = lo ++ p :: hi /\ length lo = keep /\
-          rev rst = lo ++ [mkUnf (freeze p a) None])).
+          rev rst = lo ++ [mkUnf (freeze p a) None])) /\
+    strim E' /\ bbytes b' /\
+    (forall v, cgood E -> Cpost (elang E) (rev rest ++ [vtop u addr]) [] keep v ->
+               cgood E' /\ Cpost (elang E') (rev rst) [] keep v).
 Proof.
-  induction rest as [|p rest IH]; intros u b addr E k L keep b' r Hm Hs Hnone Hsz Hc.
+  induction rest as [|p rest IH]; intros u b addr E k L keep b' r Hm Hs Hnone Hsz Htrim Hbb Htt Hc.
   - (* nothing to pop *)
     cbn [compile_from_rev length] in Hc.
     assert (Hlt : Nat.ltb (S keep) 1 = false) by (apply Nat.ltb_ge; lia). rewrite Hlt in Hc.
@@ -106,18 +142,24 @@ Proof.
       cbn [rev] in Hs. rewrite <- app_assoc in Hs. cbn [app] in Hs.
       assert (Hs2 : sinv E ((rev rest ++ [p]) ++ [vtop u addr]) k L) by (rewrite <- app_assoc; exact Hs).
       pose proof (node_ok_top _ _ _ _ _ Hs2 Hvl) as Hnok.
+      destruct (shape_two _ _ _ _ (s_shape _ _ _ _ Hs)) as (_ & c0 & o0 & Hp0 & _).
       destruct (compile b (u_node (vtop u addr))) as [b1 r1] eqn:Hc1.
-      destruct (compile_ok2 E b _ b1 r1 Hm Hnok) as (E1 & a1 & -> & Hm1 & F1 & F2 & F3 & Hext & Hlen & Htg & Hna & Hla & Hle & Hnew); auto.
+      destruct (compile_ok2 E b _ b1 r1 Hm Hnok) as
+        (E1 & a1 & -> & Hm1 & F1 & F2 & F3 & Hext & Hlen & Htg & Hna & Hla & Hle & Hnew & Hstr & Hbb1); auto.
       { unfold len in *. cbn [length] in Hsz. lia. }
       destruct (N.eqb_spec a1 NONE_ADDRESS) as [X|_]; [contradiction|].
       destruct Hm1 as (HE1 & Hm1').
       pose proof (pop_step E E1 (rev rest) p (vtop u addr) a1 k L Hext HE1 Hs Htg Hla Hle Hnew) as Hs1.
       rewrite rev_length in Hs1.
+      assert (Htrim1 : strim E1).
+      { destruct Hstr as [->|(s & -> & Hsn)]; [exact Htrim|]. cbn [strim]. split; [exact Htrim|].
+        rewrite Hsn. apply Htt. cbn [length] in Hlt |- *. lia. }
       destruct (IH p b1 (Some a1) E1 (firstn (length rest) k) L keep b' r) as
-        (E' & rst & Hr & Hm' & G1 & G2 & Glen & Gs & Gcase); auto.
+        (E' & rst & Hr & Hm' & G1 & G2 & Glen & Gs & Gcase & Gtrim & Gbb & GC); auto.
       { split; auto. }
       { discriminate. }
       { unfold len, NODE_MAX in *. cbn [length] in *. lia. }
+      { intros _. cbn [vtop u_node]. eapply trimmed_freeze; eauto. }
       exists E', rst. splits; auto; try congruence.
       * unfold len in *. cbn [length] in *. lia.
       * rewrite firstn_firstn in Gs. replace (Nat.min keep (length rest)) with keep in Gs; [exact Gs|].
@@ -127,6 +169,12 @@ Proof.
         -- exists (rev rest), p, [], a1. cbn [rev vtop]. splits; auto.
            rewrite rev_length. cbn [length] in Hlt. lia.
         -- exists lo, p0, (hi ++ [p]), a. cbn [rev]. rewrite Grev, <- app_assoc. splits; auto.
+      * intros v Hcg HC. cbn [rev] in HC. rewrite <- app_assoc in HC. cbn [app] in HC.
+        assert (Hq : (keep <= length (rev rest))%nat) by (rewrite rev_length; cbn [length] in Hlt; lia).
+        apply GC.
+        -- destruct Hstr as [->|(s & -> & Hsn)]; [exact Hcg|]. cbn [cgood]. split; [exact Hcg|].
+           rewrite Hsn. eapply Cpost_top_Fro; eauto. exact (s_shape _ _ _ _ Hs).
+        -- cbn [vtop]. eapply pop_step_C; eauto.
     + assert (Hlt : Nat.ltb (S keep) (length (u :: p :: rest)) = false) by (apply Nat.ltb_ge; lia).
       cbn [length] in Hge.
       assert (Hv : (match addr with
@@ -157,26 +205,38 @@ Proof.
   - intros (Ho & Hs). destruct (IH k Hs) as (lo & t & -> & Ht & Hl). exists (u :: lo), t. cbn [app lasts]. auto.
 Qed.
 
+Lemma bbytes_frame b b2 : b_out b2 = b_out b -> bbytes b -> bbytes b2.
+Proof. unfold bbytes, body. intros ->. auto. Qed.
+
 Lemma compile_from_ok E b k L keep b' r :
   minv ty E b -> sinv E (b_stack b) k L ->
   NODE_MAX * (len E + len (b_stack b)) + 100 < U64 ->
+  strim E -> bbytes b -> top_final (b_stack b) ->
   compile_from b keep = (b', r) ->
   exists E', r = Ok tt /\ minv ty E' b' /\ b_last b' = b_last b /\ b_len b' = b_len b /\
     len E' + len (b_stack b') <= len E + len (b_stack b) /\
     sinv E' (b_stack b') (firstn keep k) L /\
     (((length k <= keep)%nat /\ b_stack b' = b_stack b /\ E' = E) \/
      ((keep < length k)%nat /\ exists lo p hi a, b_stack b = lo ++ p :: hi /\ length lo = keep /\
-          b_stack b' = lo ++ [mkUnf (freeze p a) None])).
+          b_stack b' = lo ++ [mkUnf (freeze p a) None])) /\
+    strim E' /\ bbytes b' /\
+    (forall v, cgood E -> Cpost (elang E) (b_stack b) [] keep v ->
+               cgood E' /\ Cpost (elang E') (b_stack b') [] keep v).
 Proof.
-  intros Hm Hs Hsz Hc. unfold compile_from in Hc.
+  intros Hm Hs Hsz Htrim Hbb Htf Hc. unfold compile_from in Hc.
   destruct (shape_top _ _ (s_shape _ _ _ _ Hs)) as (lo0 & t & Hst & Ht & Hlo0).
   pose proof (lasts_length _ _ Hlo0) as Hll.
   rewrite Hst, rev_app_distr in Hc. cbn [rev app] in Hc.
   destruct (compile_from_rev b (t :: rev lo0) keep None) as [b1 r1] eqn:Hc1.
   destruct (cfr_ok (rev lo0) t b None E k L keep b1 r1) as
-    (E' & rst & -> & Hm' & G1 & G2 & Glen & Gs & Gcase); auto.
+    (E' & rst & -> & Hm' & G1 & G2 & Glen & Gs & Gcase & Gtrim & Gbb & GC); auto.
   { cbn [vtop]. rewrite rev_involutive, <- Hst. exact Hs. }
   { rewrite Hst in Hsz. unfold len in *. rewrite app_length in Hsz. cbn [length] in *. rewrite rev_length. lia. }
+  { rewrite rev_length. intros Hk. cbn [vtop]. destruct (Htf t) as [X|X].
+    - rewrite Hst. clear. induction lo0 as [|x lo IH]; [reflexivity|].
+      cbn [app]. destruct (lo ++ [t]) eqn:X; [destruct lo; discriminate|]. exact IH.
+    - rewrite Hst, app_length in X. cbn [length] in X. lia.
+    - left. exact X. }
   inversion Hc; subst b' r; clear Hc. exists E'. cbn [with_stack b_stack b_last b_len].
   splits; auto.
   - eapply minv_frame; [..|exact Hm']; reflexivity.
@@ -185,6 +245,7 @@ Proof.
     + left. splits; auto; [lia|]. cbn [rev vtop]. rewrite rev_involutive. auto.
     + right. split; [lia|]. rewrite rev_involutive in Grev. exists lo, p, (hi ++ [t]), a.
       rewrite Hst, Grev, <- app_assoc. splits; auto.
+  - intros v Hcg HC. apply GC; auto. cbn [vtop]. rewrite rev_involutive, <- Hst. exact HC.
 Qed.
 
 (* ---------- order facts about the common prefix ---------- *)
